@@ -45,6 +45,8 @@ def bfs(ctx, configs, ops_fn, step, depth, section=None, horizon=120, init=None)
             break
         rets = grid.pmap(_do, [(configs[i], h) for (i, h) in tasks], ctx, section=section, horizon=horizon, collect=True)
         transitions += len(tasks)
+        if not ctx.exhaustive:
+            break           # the pool aborted after too many violations
         nxt = []
         for (i, h), k in zip(tasks, rets):
             if k is None:
